@@ -302,7 +302,7 @@ pub fn mirror_scenario(prop: &str, seed: u64, index: u64) -> Option<Scenario> {
         let mut w1 = scn.worlds[0].clone();
         w1.obstacles.push(Obstacle::Ball { c, r });
         scn.worlds.push(w1);
-        scn.params.insert("fault_kind".into(), (index / 24 % 6) as f64);
+        scn.params.insert("fault_kind".into(), (index / 24 % 24) as f64);
         // k-th call faults for part of the scenarios (0 = region fault)
         let kth = if index % 3 == 0 { 1 + (index / 3) % 256 } else { 0 };
         scn.params.insert("fault_kth".into(), kth as f64);
